@@ -166,8 +166,8 @@ class Gen:
             p = r.random()
             if depth >= self.maxdepth or p < 0.5:
                 out += self.leaf()
-            elif p < 0.75 and self.ops:
-                op = r.choice(self.ops)
+            elif p < 0.75 and (self.ops or r.random() < 0.3):
+                op = r.choice(self.ops or ["("])
                 out += (["("] if op == "(" else [op, "("]) + self.items(depth + 1) + [")"]
             else:
                 f = r.choice(FLAGS)
@@ -233,6 +233,75 @@ def py_flagged(kind, toks):
             if i + 1 >= len(toks) or toks[i + 1] != "(":
                 return "dangling operator"
     return "unmatched (" if depth else None
+
+
+class _Malformed(Exception):
+    pass
+
+
+class _NoReading(Exception):
+    pass
+
+
+def ref_read(kind, toks, leafinfo):
+    """The reading of the TEXT itself, by recursive descent from PMS 8.2, independent of DepSet.parse and of
+    the Coq model: `( .. )` is an all-of group in EVERY attribute kind, `|| ^^ ??` where the attribute has
+    them, `flag? ( .. )` / `!flag? ( .. )` use-conditional groups, SRC_URI `uri -> name`; nothing is collapsed.
+    Returns a canonical tree, None when this reader declines to judge (tokens outside the kind's grammar)."""
+    ops = {0: {"||"}, 1: {"||"}, 2: {"||"}, 3: set(), 4: set(), 5: {"||", "^^", "??"}, 6: {"||", "^^"}}[kind]
+    pos = 0
+
+    def group(depth):
+        nonlocal pos
+        if pos >= len(toks) or toks[pos] != "(":
+            raise _Malformed()
+        pos += 1
+        ch = items(depth + 1)
+        if pos >= len(toks) or toks[pos] != ")" or not ch:
+            raise _Malformed()
+        pos += 1
+        return ch
+
+    def items(depth):
+        nonlocal pos
+        out = []
+        while pos < len(toks):
+            t = toks[pos]
+            if t == ")":
+                if depth == 0:
+                    raise _Malformed()
+                return out
+            if t == "(":
+                out.append([1, "", group(depth)])
+            elif t in ops:
+                pos += 1
+                out.append([1, t, group(depth)])
+            elif t in ("||", "^^", "??") and (kind >= 5 or t == "||") or ("|" in t and not t.endswith("?")):
+                raise _NoReading()
+            elif t.endswith("?"):
+                pos += 1
+                neg = t.startswith("!")
+                out.append([2, neg, t[1:-1] if neg else t[:-1], group(depth)])
+            else:
+                pos += 1
+                if kind == 4 and pos < len(toks) and toks[pos] == "->":
+                    if pos + 1 >= len(toks):
+                        raise _Malformed()
+                    out.append([0, t, toks[pos + 1]])
+                    pos += 2
+                elif kind <= 1:
+                    rec = leafinfo.get(t)
+                    if rec is None:
+                        raise _NoReading()
+                    out.append([0, rec[0], None])
+                else:
+                    out.append([0, t, None])
+        return out
+
+    try:
+        return items(0)
+    except (_Malformed, _NoReading):
+        return None
 
 
 def use_variable(u):
@@ -424,7 +493,10 @@ def main(chk: Check):
     fixed = [(5, "^^ ( a b )"), (5, "?? ( a b )"), (5, "?? ( a )"), (5, "?? ( a x? ( b ) )"), (6, "?? ( a )"),
              (6, "?? ( a b )"), (5, "x? ( ^^ ( a b !d ) )"), (0, "|| ( || ( x? ( a/b ) ) c/d )"),
              (0, "|| ( x? ( y? ( a/b ) ) c/d )"), (0, "a/b[x?]"), (1, "a/b[x?]"), (1, "a/b[x?] y? ( c/d )"),
-             (3, "( mirror )"), (3, "|| ( mirror test )"), (4, "http://h/a.tgz -> a b"), (4, "-> -> a"),
+             (3, "( mirror )"), (3, "|| ( mirror test )"), (3, "mirror ( test fetch ) strip"),
+             (3, "x? ( ( test fetch ) strip )"), (4, "http://h/a.tgz ( c.patch mirror://m/b.tar -> n.tar )"),
+             (4, "!y? ( ( c.patch ) )"), (3, "? ( test )"), (3, "!? ( test )"), (0, "( a/b c/d ) !x? ( ( a/b ) )"),
+             (2, "MIT ( BSD GPL-2 )"), (4, "http://h/a.tgz -> a b"), (4, "-> -> a"),
              (4, "a ->"), (4, "a -> )"), (0, ""), (0, "( )"), (0, "x? ( )"), (0, ")"), (0, "( a/b"),
              (2, "|| ( MIT )"), (2, "|| ( ( MIT BSD ) GPL-2 )"), (0, "( ( a/b c/d ) ( a/b ( c/d a/b:2 ) ) )"),
              (5, "|| ( a ^^ ( b c ) ?? ( x !y ) )"), (0, "!x? ( a/b[!x?] )"), (0, "?? ( a/b )"), (0, "a/b |"),
@@ -451,6 +523,8 @@ def main(chk: Check):
     prop_fail = []  # (class, detail)
     eval_budget = chk.n(600, 7000)
     premise_unmet = 0
+    n_ref = 0
+    parse_meaning_bad = set()
     for kind, toks, s, origin in strings:
         def do_parse():
             d = impl.parse(kind, s)
@@ -510,6 +584,9 @@ def main(chk: Check):
         subsets = [c for n in range(len(flags) + 1) for c in itertools.combinations(flags, n)]
         if origin != "fixed" and len(subsets) > 4 and not chk.thorough:
             subsets = [subsets[0], subsets[-1]] + rng.sample(subsets[1:-1], 4)
+        ref = ref_read(kind, stoks, leafinfo)
+        if ref is not None:
+            n_ref += 1
         for use in subsets:
             def do_eval():
                 e = d.evaluate_depset(use)
@@ -523,6 +600,25 @@ def main(chk: Check):
                 continue
             # (B) meaning, directly on the implementation's two trees
             sem0 = Sem(use, set(), leafinfo)
+            # (B) the parsed structure means what the TEXT means (independent reader of the string)
+            if ref is not None and (kind, s) not in parse_meaning_bad:
+                runiv = sorted(sem0.tokens(res[1], set()) | sem0.tokens(ref, set()))
+                if len(runiv) <= 6:
+                    rsets = [set(c) for n in range(len(runiv) + 1) for c in itertools.combinations(runiv, n)]
+                else:
+                    rsets = [set(), set(runiv)] + [set(t for t in runiv if rng.random() < 0.5) for _ in range(40)]
+                for S in rsets:
+                    a = all(Sem(use, S, leafinfo).sat(n) for n in res[1])
+                    b = all(Sem(use, S, leafinfo).sat(n) for n in ref)
+                    if a != b:
+                        parse_meaning_bad.add((kind, s))
+                        prop_fail.append(("parse-meaning", {
+                            "what": "the structure DepSet.parse built does not mean what the text means (PMS reading of "
+                                    "the string: ( .. ) all-of, || any-of, flag? ( .. ) conditional)",
+                            "kind": KIND_NAMES[kind], "input": s, "use": list(use), "token_set": sorted(S),
+                            "text_satisfied": b, "parsed_satisfied": a, "parsed": res[1], "rendered": res[2],
+                            "origin": origin}))
+                        break
             if not res[0] and not all(sem0.flat(n) for n in res[1]):
                 # parsed without transitive_use_atoms: use-dep atoms are left alone by design
                 # (premise of evaluate_preserves_meaning: tua, or no use-dep atom that depends on a flag)
@@ -552,6 +648,7 @@ def main(chk: Check):
                 prop_fail.append(("eval-meaning", bad))
     chk.count("parse", len(parse_cases))
     chk.cov["eval_premise_unmet"] = premise_unmet
+    chk.cov["strings_judged_against_text_reading"] = n_ref
     chk.count("eval", len(eval_cases))
     hist = {}
     for (kind, s, origin), (_, res) in zip(parse_meta, parse_cases):
